@@ -9,8 +9,9 @@ CONSTANTS
   Eager = FALSE
   CloseErr = TRUE
   Defect_LateCloseUnderLock = FALSE
+  Defect_NoJoin = FALSE
   Defect_AddDeadConn = FALSE
   Mut = "none"
-INVARIANTS TypeOK NoSelfDeadlock SizeBound OneFiller ClosedEmpty ReportedNotInPool NoStray NoLeakAfterClose PoolConnsAlive
+INVARIANTS TypeOK NoSelfDeadlock FillJoin SizeBound OneFiller ClosedEmpty ReportedNotInPool NoStray NoLeakAfterClose PoolConnsAlive
 PROPERTIES FillEnds AllClosedEventually CloseReturns PoolRefilled
 CHECK_DEADLOCK FALSE
